@@ -76,10 +76,10 @@ fn c04_late_joiner_push() {
 }
 
 // @check props=C04 tier=quick
-// @desc wait_for_historical_data predicate along a catch-up: a writer proxy that never accepted a HEARTBEAT reports is_historical_data_received() == false whatever it has received; after the first accepted HEARTBEAT(first,last) (real glue statements, ACKNACK emitted) it is true iff no sequence number in max(first,highest+1)..=last is missing; if exactly one change is missing, receiving exactly that change (received_change_set, as on_data_submessage does) makes it true, and declaring it irrelevant by GAP (irrelevant_change_set) does too. Every matched writer proxy must agree: RtpsStatefulReader::is_historical_data_received is the conjunction (checked with one proxy).
+// @desc wait_for_historical_data predicate along a catch-up: a writer proxy that never accepted a HEARTBEAT reports is_historical_data_received() == false whatever it has received; after the first accepted HEARTBEAT(first,last) (real glue statements, ACKNACK emitted) it is true iff no sequence number in max(first,highest+1)..=last is missing; if exactly one change is missing, receiving exactly that change (received_change_set, as on_data_submessage does) makes it true, and declaring it irrelevant by GAP (irrelevant_change_set) does too. RtpsStatefulReader::is_historical_data_received (conjunction over matched writers) is checked in the no-HEARTBEAT state with one matched writer; the catch-up runs on a stand-alone RtpsWriterProxy (through the reader the same step exceeded 11.6 GB).
 // @bounds proxy state symbolic with sequence numbers <= 1000, at most 3 missing changes after the HEARTBEAT, HEARTBEAT count full i32; unwind 6
 // @assume writer-proxy representation invariant; HEARTBEAT validity firstSN >= 1, lastSN >= firstSN-1
-// @assume glue statements of handle_heartbeat_submessage replicated by support_rtps::glue_heartbeat (source guard); datagram container stubbed by support_rtps::from_submessages_staged; critical-section stubs
+// @assume glue statements of handle_heartbeat_submessage replicated by support_rtps::glue_heartbeat_proxy (source guard); datagram container stubbed by support_rtps::from_submessages_staged; critical-section stubs
 // @enc rtps::writer_proxy::RtpsWriterProxy::is_historical_data_received
 // @enc rtps::stateful_reader::RtpsStatefulReader::is_historical_data_received
 // @enc rtps::writer_proxy::RtpsWriterProxy::missing_changes_update
@@ -91,11 +91,16 @@ fn c04_late_joiner_push() {
 #[kani::stub(critical_section::release, super::support_cs::cs_release)]
 fn c04_historical_data_received() {
     use crate::rtps_messages::submessages::heartbeat::HeartbeatSubmessage;
-    let mut r = s::new_reader(ReliabilityKind::Reliable);
+    // reader level: the conjunction over matched writers is false while its only writer proxy saw no HEARTBEAT
+    let r = s::new_reader(ReliabilityKind::Reliable);
+    assert!(!r.is_historical_data_received(), "C04: a reader with a matched writer has no historical data before the first HEARTBEAT");
+    core::mem::forget(r);
+
+    let mut wp = s::new_proxy(ReliabilityKind::Reliable);
     let highest: i64 = kani::any();
     kani::assume(highest >= 0 && highest <= 1000);
-    s::proxy(&mut r).irrelevant_change_set(highest);
-    assert!(!r.is_historical_data_received(), "C04: no historical data before the first HEARTBEAT");
+    wp.irrelevant_change_set(highest);
+    assert!(!wp.is_historical_data_received(), "C04: no historical data before the first HEARTBEAT, whatever was received");
 
     let first: i64 = kani::any();
     let last: i64 = kani::any();
@@ -106,21 +111,21 @@ fn c04_historical_data_received() {
     let n_missing = if last >= fm { last - fm + 1 } else { 0 };
     let hb = HeartbeatSubmessage::new(kani::any(), false, s::R_ID, s::W_ID, first, last, count);
     let out = s::Sent::new();
-    let accepted = s::glue_heartbeat(&mut r, &hb, s::W_PREFIX, &out);
+    let accepted = s::glue_heartbeat_proxy(&mut wp, &s::R_GUID, &hb, &out);
     assert!(accepted == (count > 0), "C04: the first HEARTBEAT is accepted iff its count is positive");
-    let done = r.is_historical_data_received();
+    let done = wp.is_historical_data_received();
     assert!(done == (accepted && n_missing == 0), "C04: historical data received iff a HEARTBEAT was accepted and nothing it announced is missing");
     if accepted && n_missing == 1 {
         if kani::any() {
-            s::proxy(&mut r).received_change_set(last);
+            wp.received_change_set(last);
         } else {
-            s::proxy(&mut r).irrelevant_change_set(last);
+            wp.irrelevant_change_set(last);
         }
-        assert!(r.is_historical_data_received(), "C04: receiving (or being told to skip) the last missing change completes the historical data");
+        assert!(wp.is_historical_data_received(), "C04: receiving (or being told to skip) the last missing change completes the historical data");
     }
     kani::cover!(accepted && n_missing == 0, "heartbeat seen, nothing missing");
     kani::cover!(accepted && n_missing == 3, "heartbeat seen, three changes missing");
     kani::cover!(accepted && n_missing == 1, "catch-up of the last missing change");
     kani::cover!(!accepted, "heartbeat with non-positive count ignored");
-    core::mem::forget(r);
+    core::mem::forget(wp);
 }
